@@ -268,6 +268,7 @@ type WorkerOut struct {
 	EnumDone     bool                `json:"enum_done"`
 	InjectBases  int64               `json:"inject_bases"`
 	InjectPoints int64               `json:"inject_points"`
+	InjectPairs  int64               `json:"inject_pairs"`
 	Steps        int64               `json:"steps"`
 	SimTimeNs    int64               `json:"sim_time_ns"`
 	Switches     int64               `json:"switches"`
@@ -644,6 +645,21 @@ func TestSim(t *testing.T) {
 				}
 				w.one(sc, seed, []uint32{uint32(i)})
 				w.out.InjectPoints++
+			}
+			// pairwise enumeration on small base runs (thorough tier)
+			if sc.PairPrefix != nil && tier == "thorough" && n <= envInt("VERIF_PAIR_MAX_STEPS", 110) && int64(b) < envInt("VERIF_PAIR_BASES", 16) {
+				for _, kk := range sc.PairKinds {
+					for i := int64(1); i <= n && !w.stop; i++ {
+						for j := i + 1; j <= n+1 && !w.stop; j++ {
+							if time.Since(start) > enumBudget {
+								w.out.EnumDone = false
+								break
+							}
+							w.one(sc, seed, sc.PairPrefix(i, j, kk[0], kk[1]))
+							w.out.InjectPairs++
+						}
+					}
+				}
 			}
 		}
 	}
